@@ -1360,7 +1360,11 @@ fn match_of(
         }
         return res;
     } else {
-        return solve_expression(expression, identifiers, document);
+        // NOTE: A single expression can never satisfy a count greater than one.
+        return match solve_expression(expression, identifiers, document) {
+            SolverResult::True if count > 1 => SolverResult::False,
+            res => res,
+        };
     }
     SolverResult::False
 }
